@@ -27,6 +27,7 @@
 EXTENDS Integers, Sequences, FiniteSets, TLC, Json, SequencesExt, FiniteSetsExt
 
 CONSTANTS Shapes,      \* set of << H, W >> explored by the bounded machine
+          DumpShapes,  \* the frames whose behaviours are dumped for replay (all of them are explored and checked)
           Stores,      \* subset of {FALSE, TRUE}: slim- / native-stored operands
           Pats,        \* set of << pattern of a, pattern of b >>
           OpsBin, Kinds, Scalars, Routes,   \* alphabet of Binary
@@ -191,7 +192,7 @@ NativeOf(st, env) == IF ~ HasMask(env) THEN st
                      ELSE Scatter(st, env)
 StoredLen(env) == IF ~ HasMask(env) THEN Len(env.u) * env.comp * Unit(env)
                   ELSE IF env.nat THEN env.h * env.w * env.comp ELSE Len(env.u) * env.comp
-Stride(st, env) == IF env.shape0 = 0 THEN 1 ELSE Len(st) \div env.shape0
+Stride(st, env) == IF env.shape0 = 0 \/ Len(st) < env.shape0 THEN 1 ELSE Len(st) \div env.shape0
 
 \* __setitem__ with numpy semantics: `gran` = "row" selects indices of the first axis, "elem" selects single elements
 SetItem(st, env, gran, sel, vv) ==
@@ -374,7 +375,7 @@ Do(act) ==
           /\ last' = [a |-> act.a, x |-> act.x, res |-> rep, writes |-> P.writes \cup al, view |-> act.view, op |-> act.op,
                       changed |-> { s \in Slots : S1[s].st # S[s].st \/ S1[s].live # S[s].live }]
           /\ hist' = Append(hist, act)
-          /\ (Len(hist) = MaxLen) =>
+          /\ (Len(hist) = MaxLen /\ << env.h, env.w >> \in DumpShapes) =>
                PrintT(ToJson([k |-> "inst", h |-> env.h, w |-> env.w, u |-> env.u, nat |-> env.nat, hist |-> hist']))
     /\ UNCHANGED env
 
